@@ -20,6 +20,15 @@ def scratch_root():
     return base
 
 
+def run_for(seconds, enough, factor=4):
+    """let concurrent clients run for `seconds`, and on a loaded machine longer (up to factor x): until `enough()` says
+    the work the guards count on has been done - verdicts depend on operations observed, not on the wall clock"""
+    import time as _t
+    t_stop = _t.monotonic() + seconds
+    while _t.monotonic() < t_stop or (not enough() and _t.monotonic() < t_stop + factor * seconds):
+        _t.sleep(0.2)
+
+
 def mkscratch(tag):
     return tempfile.mkdtemp(prefix=tag + "-", dir=scratch_root())
 
